@@ -1,4 +1,52 @@
-"""C02 — not built yet."""
+"""C02 — generated Read/Write implement the Thrift wire format of the IDL (DESIGN.md §5.2)."""
+import json, os
+from vlib import core
+
+THEOREMS = ["Props.C02." + t for t in ["typeid_table_sound", "wire_roundtrip", "write_wellformed", "read_write_roundtrip",
+            "read_skips_unknown", "read_retag_skips", "read_skips_unknown_anywhere", "read_required_missing",
+            "union_write_refuses", "presentation_options_irrelevant"]]
+
 def run(ctx):
-    print("C02: no check built yet")
-    return 2
+    exe = ctx.go_build("c02")
+    ctx.trusted += ["translator harness/cmd/c02 extract (golang.GetTypeIDConstant per category)",
+                    "correspondence: generated code compiled in one batch (harness/internal/batch) and driven by reflection vs tv_c02",
+                    "oracle: harness/internal/refcodec (independent schema-driven reference codec, Go)"]
+    ctx.assumptions += ["apache/thrift v0.13.0 TBinaryProtocol = Core.Wire primitives (every primitive exercised by the correspondence)",
+                        "protocol Skip modelled as strict untyped decode to depth 64 (apache's Skip ignores some errors on malformed input; such inputs are not generated)",
+                        "Go reflect in the driver"]
+    ctx.partial += ["read_retag_skips / read_required_missing are per-loop-step statements (any state = any position); "
+                    "read_skips_unknown_anywhere is the composed statement for unknown ids"]
+    if exe:
+        rc, gen = core.sh([exe, "extract", "-repo", core.REPO])
+        ctx.obligation("translator:c02-extract", rc == 0, gen[-2000:] if rc else "")
+        if rc == 0:
+            ctx.write_generated("C02", gen)
+    built = ctx.lake_build(["ThriftVerif.Props.C02"], "lake-build:Props.C02")
+    drv = ctx.lake_build(["tv_c02"], "lake-build:tv_c02")
+    if built:
+        ctx.audit("C02", THEOREMS)
+        if ctx.tier == "thorough":
+            ctx.leanchecker(["ThriftVerif.Props.C02"])
+    if exe:
+        seed = ctx.seed
+        if ctx.replay:
+            doc = json.load(open(ctx.replay))
+            seed = doc.get("seed", seed)
+        rc, out = core.sh([exe, "run", "-repo", core.REPO, "-dir", ctx.work, "-seed", str(seed), "-tier", ctx.tier], timeout=3400)
+        if rc not in (0, 1) or not os.path.exists(os.path.join(ctx.work, "stats.json")):
+            raise core.MachineryError("c02 run failed: " + out[-3000:])
+        st = json.load(open(os.path.join(ctx.work, "stats.json")))
+        ctx.cov.update(evaluations=st["evaluations"], distinct_nontrivial=st["distinct_nontrivial"], samples=st["samples"] or [],
+                       distribution=st["distribution"], programs=sum(v for k, v in st["distribution"].items() if k.startswith("unit.options.")))
+        for f in (st.get("oracle_failures") or []):
+            if ctx.replay and f["key"] != json.load(open(ctx.replay)).get("key"):
+                continue
+            ctx.add_violation(f["key"], f["what"], f["input"], f["expected"], f["observed"])
+        if drv:
+            ops = os.path.join(ctx.work, "ops.txt")
+            model = ctx.run_model("tv_c02", ops)
+            ctx.diff_lines("c02:Gen.Std-vs-generated-code", ops, os.path.join(ctx.work, "impl.txt"), model)
+            if not ctx.cov.get("samples"):
+                ctx.cov["samples"] = [l for l in open(ops).read().split("\n") if l.startswith(("W ", "R "))][:5]
+    return ctx.finish(rule="(program, option set, struct, value, perturbation) cases from the seeded type-directed generators; an op is "
+                           "non-trivial unless it is a schema line or N; distinct by sha256 of the op line")
